@@ -113,6 +113,57 @@ def noise_amplification(fn, elem):
     return None
 
 
+def _pole(R):
+    return math.sqrt(max(0.0, 1 - R[1, 1] ** 2))
+
+
+def _skew(R):
+    return float(np.linalg.norm([R[2, 1] - R[1, 2], R[0, 2] - R[2, 0], R[1, 0] - R[0, 1]]))
+
+
+def _polev(v):
+    v = np.asarray(v, dtype=float)
+    r = np.linalg.norm(v)
+    if r < 1e-12:
+        return 1.0  # normalize forwards ~0: acos(0), well conditioned
+    return math.sqrt(max(0.0, 1 - (v[1] / r) ** 2))
+
+
+def sensitivity(fn, e):
+    """distance (in the sense 'sine of the angle') of the input from the strata on which the function's formulas are
+    ill-conditioned (acos near +-1, normalisation of a small difference).  Used only to widen the FLOAT32 tolerance:
+    float32 rounding eps32 is amplified to ~eps32/s, and never beyond ~sqrt(eps32)."""
+    e = [float(x) for x in e]
+    if fn == "matrix_to_angles":
+        return _pole(np.array(e).reshape(3, 3))
+    if fn in ("matrix_to_axis_angle", "matrix_to_quaternion"):
+        return _skew(np.array(e).reshape(3, 3))
+    if fn == "angles_to_axis_angle":
+        return _skew(np_a2m(*e))
+    if fn == "compose_angles":
+        return _pole(np_a2m(*e[:3]) @ np_a2m(*e[3:]))
+    if fn == "xyz_to_angles":
+        return _polev(e)
+    if fn == "axis_angle_to_matrix":
+        return _polev(e[:3])
+    if fn == "axis_angle_to_angles":
+        n = np.asarray(e[:3]) / max(np.linalg.norm(e[:3]), 1e-12)
+        return min(_polev(e[:3]), _pole(np_rodrigues(n, e[3])))
+    if fn in ("quaternion_to_axis_angle", "quaternion_to_matrix", "quaternion_to_angles"):
+        q = np.asarray(e)
+        v = float(np.linalg.norm(q[1:]))
+        s = min(v, _polev(q[1:]))
+        if abs(q[0]) < 1:
+            s = min(s, math.sqrt(1 - q[0] ** 2))
+        if fn == "quaternion_to_angles" and np.linalg.norm(q) > 1e-6:
+            s = min(s, _pole(np_quatmat(q / np.linalg.norm(q))))
+        return s
+    if fn == "compose_axis_angle":
+        q = np_qmul(np_aa2q(e[0:3], e[3]), np_aa2q(e[4:7], e[7]))
+        return min(float(np.linalg.norm(q[1:])), math.sqrt(max(0.0, 1 - min(1.0, abs(q[0])) ** 2)))
+    return 1.0
+
+
 def image(fn, flat):
     """canonical image of an output (list of floats)"""
     if fn in EULER_OUT:
@@ -458,20 +509,30 @@ def run(ctx):
             if max(abs(a - b) for a, b in zip(rl, model)) > tol:
                 raw_angle_mismatch += 1
         k = "f32" if is32 else "f64"
-        if is32 and tag != "generic":
-            # float32 on the strata: acos of a float32 trace / cosine is only sqrt(eps32) accurate
-            tol_here = 2e-3
+        if is32:
+            # float32: rounding is amplified to eps32/s near the strata, saturating at ~sqrt(eps32)
+            tol_here = min(2e-3, tol + 4e-7 / max(sensitivity(fn, elem), 1e-12))
+            if tol_here > 2 * tol:
+                ctx.count("f32-near-stratum(loose tolerance)")
         else:
             tol_here = tol
         vn = noise_amplification(fn, elem)
         if vn is not None and vn < 1e-6:
-            # axis = rounding noise / max(norm, eps): compare at the amplified rounding level (see noise_amplification)
-            tol_here = max(tol_here, (1e-7 if is32 else 4e-16) / max(vn, 1e-12), 1e-7)
+            # axis = rounding noise / max(norm, eps): only the ANGLE is comparable (sqrt(eps)-accurate next to 0 / 2pi);
+            # the axis is compared at the amplified rounding level (see noise_amplification)
             ctx.count("noise-amplified-axis")
+            d_angle = abs(rl[3] - model[3])
+            d_axis = max(abs(x - y) for x, y in zip(rl[:3], model[:3]))
+            if d_angle > (2e-3 if is32 else 1e-7) or d_axis > max(tol_here, (1.001 if is32 else 4e-16 / max(vn, 1e-12))) \
+                    or (is32 and max(abs(x) for x in rl[:3]) > 1 + 1e-5):
+                disagreements.append((stream, fn, str(dtype), elem, rl, model, max(d_angle, d_axis)))
+            continue
         if d > tol_here:
             disagreements.append((stream, fn, str(dtype), elem, rl, model, d))
+        elif tol_here <= 2 * tol:
+            maxdiff[k] = max(maxdiff[k], d)
         else:
-            maxdiff[k] = max(maxdiff[k], d) if not (is32 and tag != "generic") else maxdiff[k]
+            maxdiff[k + "-loose-tolerance-cases"] = max(maxdiff.get(k + "-loose-tolerance-cases", 0.0), d)
     for key, flags in group_err.items():
         if not any(flags):
             disagreements.append((key[0], key[1], "f64", "batch", key[3], "model accepts every element", float("inf")))
@@ -491,7 +552,7 @@ def run(ctx):
     witnesses(ctx, real)
 
     # a model/code disagreement is classified: does a property fail on the real code there?
-    if disagreements or bc_bad:
+    if (disagreements or bc_bad) and not oracle_fail:
         ctx.violation("corr:model-vs-code", {
             "what": "Float instance of the Lean model and the real code disagree beyond tolerance",
             "examples": [dict(stream=d[0], fn=d[1], dtype=d[2], input=d[3], real=str(d[4]), model=str(d[5]), diff=d[6]) for d in disagreements[:20]],
@@ -509,7 +570,7 @@ def run(ctx):
         "A case is one (function, dtype, input element); all count as non-trivial (distinct inputs are hashed).")
     ctx.assumptions += [
         "the model is element-wise; stacking over batch dims and broadcasting are checked by the harness, not proved",
-        "Float model vs code agree to 1e-9 (f64) / 1e-4 (f32; 2e-3 on the singular strata where acos amplifies float32 rounding); "
+        "Float model vs code agree to 1e-9 (f64) / 1e-4 (f32, widened to min(2e-3, 1e-4+4e-7/s) at distance s from a stratum where acos / normalisation amplify float32 rounding); "
         "theorems are about the real-number instance of the same definitions",
         "torch.det / torch.allclose / F.normalize / clamp semantics as transcribed in Model/Rotation.lean",
         "rand_* functions are not modelled (they are angles_to_* of random angles)",
@@ -559,12 +620,25 @@ def broadcast_checks(ctx, real):
 # ---------------------------------------------------------------- property oracles on the real code
 def oracles(ctx, real):
     """checks the statements of Props/C12 on the real code; returns failures outside the known singular strata.
-    Failures ON the strata are the known negative results: they are reported by `witnesses`."""
+    Failures ON the strata are the known negative results: they are reported by `witnesses`.
+
+    strata of a rotation R (all thresholds `thr`: 1e-4 in float64, 5e-2 in float32):
+      skew  = |(R21-R12, R02-R20, R10-R01)| = 2|sin theta|   small: identity / rotation by pi   (matrix -> axis-angle)
+      apole = sin of the angle between the rotation axis and +-e_y   small: xyz_to_angles(axis) takes acos near +-1
+      pole  = sqrt(1 - R11^2) = |sin beta|                    small: beta in {0, pi}             (matrix -> angles)
+    On the generic stratum every statement is checked at `tol`; on the near-singular complement the statements that are
+    theorems there (matrix_to_angles round trip, sphere round trip, quaternion_to_matrix) are checked at a sqrt(eps)-level
+    tolerance, because acos halves the number of correct digits next to +-1."""
     torch, rot = real.torch, real.rot
     rng = ctx.rng
     G = grid_angles() + [0.3, -1.1, 2.5]
     n_r = 20000 if ctx.tier == "thorough" else 3000
     tri = list(itertools.product(G, repeat=3)) + [(rng.uniform(-7, 7), rng.uniform(-7, 7), rng.uniform(-7, 7)) for _ in range(n_r)]
+    for d in (1e-3, 1e-5, 1e-7, 1e-8, 1e-9):  # next to the poles / to angle pi / to the identity
+        for base in (0.0, PI):
+            tri += [(rng.uniform(-7, 7), base + d, rng.uniform(-7, 7)), (rng.uniform(-7, 7), base - d, rng.uniform(-7, 7))]
+            x = rng.uniform(-3, 3)
+            tri += [(x, d, base - x), (x + d, 0.0, base - x)]
     fails = []
     stats = {}
     eye = torch.eye(3, dtype=torch.float64)
@@ -573,17 +647,28 @@ def oracles(ctx, real):
         return (A - B).abs().flatten(1).amax(1) if A.dim() > 1 else (A - B).abs()
 
     def report(name, err, mask, tol, inputs):
-        """err: per-element error; mask: elements where the statement is claimed (generic stratum)"""
+        """err: per-element error; mask: elements where the statement is claimed"""
         e = torch.where(mask, err, torch.zeros_like(err))
         m = float(e.max()) if e.numel() else 0.0
         stats[name] = max(stats.get(name, 0.0), m)
         ctx.case(("oracle", name, int(mask.sum())))
         ctx.count("oracle:" + name, int(mask.sum()))
-        if m > tol:
+        if m > tol or bool(torch.isnan(err[mask]).any()):
             i = int(e.argmax())
             fails.append(dict(oracle=name, error=m, tol=tol, input=[float(x) for x in inputs[i].flatten().tolist()]))
 
-    for dt, tol, gen_thr in ((torch.float64, 1e-9, 1e-4), (torch.float32, 1e-4, 5e-2)):
+    def skew_of(R):
+        return torch.stack([R[:, 2, 1] - R[:, 1, 2], R[:, 0, 2] - R[:, 2, 0], R[:, 1, 0] - R[:, 0, 1]], -1)
+
+    def strata(R, thr):
+        k = skew_of(R.double())
+        s = k.norm(dim=-1)
+        n = k / s.clamp(min=1e-300)[:, None]
+        apole = (1 - n[:, 1] ** 2).clamp(min=0).sqrt()
+        pole = (1 - R[:, 1, 1].double() ** 2).clamp(min=0).sqrt()
+        return (s > thr), (s > thr) & (apole > thr), (pole > thr)
+
+    for dt, tol, thr, near_tol in ((torch.float64, 1e-9, 1e-4, 1e-6), (torch.float32, 1e-4, 5e-2, 5e-3)):
         T = torch.tensor(tri, dtype=torch.float64).to(dt)
         a, b, c = T[:, 0], T[:, 1], T[:, 2]
         tag = "" if dt == torch.float64 else "/f32"
@@ -594,73 +679,74 @@ def oracles(ctx, real):
             report(nm + ":orthogonal" + tag, merr(M @ M.transpose(-1, -2), I), allm, tol, T)
             report(nm + ":det" + tag, (torch.det(M.double()) - 1).abs().to(dt), allm, tol, T)
         report("inverse_angles:transpose" + tag, merr(rot.angles_to_matrix(*rot.inverse_angles(a, b, c)), R.transpose(-1, -2)), allm, tol, T)
-        # strata of R: skew magnitude (= 2|sin theta|), pole distance |sin beta_R|
-        skew = torch.stack([R[:, 2, 1] - R[:, 1, 2], R[:, 0, 2] - R[:, 2, 0], R[:, 1, 0] - R[:, 0, 1]], -1).norm(dim=-1)
-        generic_aa = skew > gen_thr
-        pole = (1 - R[:, 1, 1] ** 2).clamp(min=0).sqrt()
-        generic_pole = pole > gen_thr
-        # matrix -> angles -> matrix : claimed everywhere (theorem matrix_to_angles_roundtrip);
-        # near the poles acos loses half of the digits: tolerance sqrt-scaled there
+        ia = rot.identity_angles(5, dtype=dt)
+        report("identity_angles:matrix" + tag, merr(rot.angles_to_matrix(*ia), eye.to(dt).expand(5, 3, 3)), torch.ones(5, dtype=torch.bool), tol, torch.zeros(5, 3))
+        report("identity_quaternion:matrix" + tag, merr(rot.quaternion_to_matrix(rot.identity_quaternion(5, dtype=dt)), eye.to(dt).expand(5, 3, 3)),
+               torch.ones(5, dtype=torch.bool), tol, torch.zeros(5, 3))
+        g_skew, g_axis, g_pole = strata(R, thr)
+        # matrix -> angles -> matrix : theorem for every rotation
         rt = merr(rot.angles_to_matrix(*rot.matrix_to_angles(R)), R)
-        report("matrix_to_angles:roundtrip" + tag, rt, generic_pole, tol, T)
-        report("matrix_to_angles:roundtrip-near-pole" + tag, rt, ~generic_pole, 1e-6 if dt == torch.float64 else 5e-3, T)
+        report("matrix_to_angles:roundtrip" + tag, rt, g_pole, tol, T)
+        report("matrix_to_angles:roundtrip-near-pole" + tag, rt, ~g_pole, near_tol, T)
         # sphere
         xyz = rot.angles_to_xyz(a, b)
         report("angles_to_xyz:unit" + tag, (xyz.norm(dim=-1) - 1).abs(), allm, tol, T)
-        sb = b.sin().abs() > gen_thr
+        sb = b.double().sin().abs() > thr
         back = rot.angles_to_xyz(*rot.xyz_to_angles(xyz))
         report("xyz_to_angles:roundtrip" + tag, merr(back, xyz), sb, tol, T)
-        report("xyz_to_angles:roundtrip-near-pole" + tag, merr(back, xyz), ~sb, 1e-6 if dt == torch.float64 else 5e-3, T)
+        report("xyz_to_angles:roundtrip-near-pole" + tag, merr(back, xyz), ~sb, near_tol, T)
         # quaternions
         q = rot.angles_to_quaternion(a, b, c)
         report("angles_to_quaternion:unit" + tag, (q.norm(dim=-1) - 1).abs(), allm, tol, T)
-        qv = q[:, 1:].norm(dim=-1)
-        gen_q = qv > gen_thr
         Rq = rot.quaternion_to_matrix(q)
         report("quaternion_to_matrix:orthogonal" + tag, merr(Rq @ Rq.transpose(-1, -2), I), allm, tol, T)
-        report("quaternion_to_matrix:angles_to_quaternion" + tag, merr(Rq, R), gen_q & ((1 - q[:, 0] ** 2).clamp(min=0).sqrt() > gen_thr), tol, T)
-        report("quaternion_to_matrix:angles_to_quaternion-near" + tag, merr(Rq, R), ~gen_q, 1e-6 if dt == torch.float64 else 5e-3, T)
-        report("quaternion_to_matrix:neg" + tag, merr(rot.quaternion_to_matrix(-q), Rq), gen_q, tol, T)
+        report("quaternion_to_matrix:angles_to_quaternion" + tag, merr(Rq, R), g_axis, tol, T)
+        report("quaternion_to_matrix:angles_to_quaternion-near" + tag, merr(Rq, R), ~g_axis, near_tol, T)
+        report("quaternion_to_matrix:neg" + tag, merr(rot.quaternion_to_matrix(-q), Rq), g_axis, tol, T)
         report("inverse_quaternion:inverse" + tag, merr(rot.compose_quaternion(q, rot.inverse_quaternion(q)), rot.identity_quaternion(len(T), dtype=dt)), allm, tol, T)
+        report("inverse_quaternion:matrix-transpose" + tag, merr(rot.quaternion_to_matrix(rot.inverse_quaternion(q)), Rq.transpose(-1, -2)), g_axis, tol, T)
         perm = torch.tensor([rng.randrange(len(T)) for _ in range(len(T))])
-        q2, R2 = q[perm], R[perm]
-        q12 = rot.compose_quaternion(q, q2)
-        report("compose_quaternion:norm" + tag, (q12.norm(dim=-1) - q.norm(dim=-1) * q2.norm(dim=-1)).abs(), allm, tol, T)
-        g12 = (q12[:, 1:].norm(dim=-1) > gen_thr) & gen_q & gen_q[perm]
-        report("compose_quaternion:matrix-product" + tag, merr(rot.quaternion_to_matrix(q12), Rq @ Rq[perm]), g12, 10 * tol, T)
+        q12 = rot.compose_quaternion(q, q[perm])
+        R12 = R @ R[perm]
+        g12_skew, g12_axis, g12_pole = strata(R12, thr)
+        report("compose_quaternion:norm" + tag, (q12.norm(dim=-1) - q.norm(dim=-1) * q[perm].norm(dim=-1)).abs(), allm, tol, T)
+        report("compose_quaternion:matrix-product" + tag, merr(rot.quaternion_to_matrix(q12), Rq @ Rq[perm]), g_axis & g_axis[perm] & g12_axis, 10 * tol, T)
         ca = rot.compose_angles(a, b, c, a[perm], b[perm], c[perm])
-        R12 = R @ R2
-        pole12 = (1 - R12[:, 1, 1] ** 2).clamp(min=0).sqrt() > gen_thr
-        report("compose_angles:matrix-product" + tag, merr(rot.angles_to_matrix(*ca), R12), pole12, 10 * tol, T)
+        report("compose_angles:matrix-product" + tag, merr(rot.angles_to_matrix(*ca), R12), g12_pole, 10 * tol, T)
+        report("compose_angles:matrix-product-near-pole" + tag, merr(rot.angles_to_matrix(*ca), R12), ~g12_pole, near_tol, T)
         # axis-angle on the generic stratum
         ax, an = rot.matrix_to_axis_angle(R)
-        report("matrix_to_axis_angle:unit-axis" + tag, (ax.norm(dim=-1) - 1).abs(), generic_aa, tol, T)
+        report("matrix_to_axis_angle:unit-axis" + tag, (ax.norm(dim=-1) - 1).abs(), g_skew, tol, T)
         Raa = rot.axis_angle_to_matrix(ax, an)
         report("axis_angle_to_matrix:orthogonal" + tag, merr(Raa @ Raa.transpose(-1, -2), I), allm, tol, T)
-        report("matrix_to_axis_angle:roundtrip" + tag, merr(Raa, R), generic_aa, 10 * tol, T)
+        report("matrix_to_axis_angle:roundtrip" + tag, merr(Raa, R), g_axis, 10 * tol, T)
         qm = rot.matrix_to_quaternion(R)
-        report("matrix_to_quaternion:unit" + tag, (qm.norm(dim=-1) - 1).abs(), generic_aa, tol, T)
-        report("matrix_to_quaternion:roundtrip" + tag, merr(rot.quaternion_to_matrix(qm), R), generic_aa, 10 * tol, T)
+        report("matrix_to_quaternion:unit" + tag, (qm.norm(dim=-1) - 1).abs(), g_skew, tol, T)
+        report("matrix_to_quaternion:roundtrip" + tag, merr(rot.quaternion_to_matrix(qm), R), g_axis, 10 * tol, T)
         aq = rot.axis_angle_to_quaternion(ax, an)
-        report("axis_angle_to_quaternion:unit" + tag, (aq.norm(dim=-1) - 1).abs(), generic_aa, tol, T)
+        report("axis_angle_to_quaternion:unit" + tag, (aq.norm(dim=-1) - 1).abs(), g_skew, tol, T)
         # a chain: angles -> quaternion -> axis-angle -> matrix -> angles -> matrix
         ax2, an2 = rot.quaternion_to_axis_angle(q)
         Rc = rot.angles_to_matrix(*rot.matrix_to_angles(rot.axis_angle_to_matrix(ax2, an2)))
-        report("chain:a-q-aa-m-a-m" + tag, merr(Rc, R), gen_q & generic_pole & ((1 - q[:, 0] ** 2).clamp(min=0).sqrt() > gen_thr), 10 * tol, T)
-        report("quaternion_to_axis_angle:unit-axis" + tag, (ax2.norm(dim=-1) - 1).abs(), gen_q, tol, T)
+        report("chain:a-q-aa-m-a-m" + tag, merr(Rc, R), g_axis & g_pole, 10 * tol, T)
+        report("quaternion_to_axis_angle:unit-axis" + tag, (ax2.norm(dim=-1) - 1).abs(), g_skew, tol, T)
         cax, can = rot.compose_axis_angle(ax, an, ax[perm], an[perm])
-        gc = generic_aa & generic_aa[perm] & g12 & (skew[perm] > gen_thr)
-        Rcomp = rot.axis_angle_to_matrix(cax, can)
-        Rwant = rot.axis_angle_to_matrix(ax, an) @ rot.axis_angle_to_matrix(ax[perm], an[perm])
-        skc = torch.stack([Rwant[:, 2, 1] - Rwant[:, 1, 2], Rwant[:, 0, 2] - Rwant[:, 2, 0], Rwant[:, 1, 0] - Rwant[:, 0, 1]], -1).norm(dim=-1)
-        report("compose_axis_angle:matrix-product" + tag, merr(Rcomp, Rwant), gc & (skc > gen_thr), 10 * tol, T)
+        report("compose_axis_angle:unit-axis" + tag, (cax.norm(dim=-1) - 1).abs(), g_skew & g_skew[perm] & g12_skew, tol, T)
+        report("compose_axis_angle:matrix-product" + tag, merr(rot.axis_angle_to_matrix(cax, can), R12), g_axis & g_axis[perm] & g12_axis, 10 * tol, T)
         # counts of the strata hit
-        ctx.count("stratum:angle-pi-or-identity(skew<thr)" + tag, int((~generic_aa).sum()))
-        ctx.count("stratum:beta-pole" + tag, int((~generic_pole).sum()))
+        ctx.count("stratum:angle-pi-or-identity(skew<thr)" + tag, int((~g_skew).sum()))
+        ctx.count("stratum:axis-near-ey" + tag, int((g_skew & ~g_axis).sum()))
+        ctx.count("stratum:beta-pole" + tag, int((~g_pole).sum()))
     ctx.notes["oracle_max_error"] = {k: float(f"{v:.3g}") for k, v in sorted(stats.items())}
     ctx.obligation("oracle:generic-stratum-properties-hold-on-real-code", not fails, json.dumps(fails[:5]))
-    for f in fails[:5]:
-        ctx.violation(f"{f['oracle'].split(':')[0]}/generic", dict(f, note="property oracle fails on the real code outside the known singular strata"), found=True)
+    seen = set()
+    for f in fails:
+        key = f"{f['oracle'].split(':')[0]}/generic"
+        if key in seen or len(seen) >= 5:
+            continue
+        seen.add(key)
+        ctx.violation(key, dict(f, all_failing_oracles=[g["oracle"] for g in fails],
+                                note="property oracle fails on the real code outside the known singular strata"), found=True)
     return fails
 
 
